@@ -392,6 +392,13 @@ class Program:
 
     def func(self, qual):
         f = self.functions.get(qual)
+        if f is None and ":" in qual and "." in qual.split(":", 1)[1]:
+            # a method that the class no longer defines itself but inherits (moved into a base class): the inherited one
+            mod, rest = qual.split(":", 1)
+            cq, name = rest.rsplit(".", 1)
+            c = self.classes.get(mod + ":" + cq)
+            if c is not None:
+                f = self.find_method(c, name)
         if f is None:
             raise AnalysisError("anchor vanished: function %s" % qual)
         return f
